@@ -50,117 +50,140 @@ theorem slot_of_out (K : PCtx) (q : Nat) (h : q < K.S) : K.slot (K.S - 1 - q) = 
 
 /-- **`loadActuals` on call-free actuals**: every value ends up in its parameter slot; the
     representation is preserved; the slots below the first parameter index are untouched. -/
-theorem exec_loadActuals (K : PCtx) (wf : K.WF) : ∀ (es : List X.Expr) (fuel : Nat) (st s : X.St) (ws : List Word),
-    (∀ e ∈ es, pureE e = true) → X.evalArgs fuel K.xc es st = .ok (ws.map Val.int) s →
+theorem exec_loadActualsV (K : PCtx) (wf : K.WF) : ∀ (es : List X.Expr) (fuel : Nat) (st s : X.St) (vs : List Val),
+    (∀ e ∈ es, pureE e = true) → X.evalArgs fuel K.xc es st = .ok vs s →
     ∀ (p saved : Nat) (gs : GS) (code : Code) (gs' : GS) (i : Nat) (a b : Word) (mem : Mem) (io : Isa.IOSt), st.io = io →
       loadActuals K.ctx (optArgsOf K.ρ es) p saved gs = .ok (code, gs') → At K.env.ds i (K.low code) → Rep K st mem →
       gs'.size + (p + es.length) ≤ K.S → K.nlocals ≤ gs.offset → gs.offset ≤ gs.size → ConstsIn K gs' →
       ∃ a' b' mem', Steps K.env (cfg i a b mem) io (cfg (i + (K.low code).length) a' b' mem') io ∧ Rep K st mem' ∧
-        (∀ k (hk : k < ws.length), mem'.read (K.sp + p + k) = ws[k]) ∧
+        (∀ k (hk : k < vs.length), mem'.read (K.sp + p + k) = wordOf K.abase vs[k]) ∧ (∀ v ∈ vs, okV v = true) ∧
         (∀ q, q < p → mem'.read (K.sp + q) = mem.read (K.sp + q)) ∧
         FrmC K gs.offset K.S mem mem' := by
   intro es
   induction es with
   | nil =>
-    intro fuel st s ws _ hev p saved gs code gs' i a b mem io hio hg hat hr hb hnl hos hci
+    intro fuel st s vs _ hev p saved gs code gs' i a b mem io hio hg hat hr hb hnl hos hci
     simp only [optArgsOf, List.map_nil] at hg
     rw [loadActuals_nil] at hg
     simp only [Except.ok.injEq, Prod.mk.injEq] at hg
     rw [← hg.1]
-    have hws : ws = [] := by
+    have hws : vs = [] := by
       cases fuel with
       | zero => rw [evalArgs_zero] at hev; simp at hev
-      | succ f => rw [evalArgs_nil] at hev; simp only [Res.ok.injEq] at hev; simpa using hev.1.symm
+      | succ f => rw [evalArgs_nil] at hev; simp only [Res.ok.injEq] at hev; exact hev.1.symm
     subst hws
-    exact ⟨a, b, mem, Steps.refl _ _, hr, fun k hk => by simp at hk, fun _ _ => rfl, FrmC.refl _ _ _ _⟩
+    exact ⟨a, b, mem, Steps.refl _ _, hr, fun k hk => by simp at hk, fun v hv => by simp at hv, fun _ _ => rfl,
+      FrmC.refl _ _ _ _⟩
   | cons e rest ih =>
-    intro fuel st s ws hp hev p saved gs code gs' i a b mem io hio hg hat hr hb hnl hos hci
+    intro fuel st s vs hp hev p saved gs code gs' i a b mem io hio hg hat hr hb hnl hos hci
     subst hio
     cases fuel with
     | zero => rw [evalArgs_zero] at hev; simp at hev
     | succ f =>
       obtain ⟨v0, s1, vs', h1, h2, hvs⟩ := evalArgs_cons_inv _ _ _ _ _ _ _ hev
-      cases ws with
-      | nil => simp at hvs
-      | cons v ws' =>
-        simp only [List.map_cons, List.cons.injEq] at hvs
-        obtain ⟨hv0, hvs'⟩ := hvs
-        subst hv0; subst hvs'
-        have hpe := hp e (by simp)
-        have hprest : ∀ x ∈ rest, pureE x = true := fun x hx => hp x (by simp [hx])
-        simp only [optArgsOf, List.map_cons] at hg
-        rcases loadActuals_cons_inv _ _ _ _ _ _ _ _ hg with ⟨hcc, _⟩ | ⟨_, c, gs1, cs, hg1, hg2, hcode⟩
-        · rw [pure_noCall K.ρ e hpe] at hcc; simp at hcc
-        · subst hcode
-          have e1 := genExpr_eff _ _ _ _ _ _ hg1
-          have e2 := loadActuals_eff _ _ _ _ _ _ _ hg2
-          simp only [List.length_cons] at hb
-          simp only [low_append, List.append_assoc] at hat ⊢
-          have hA := expr_pure_correct K wf f e st v s1 hpe h1
-          obtain ⟨b1, mem1, st1, rep1, frm1⟩ := hA gs c gs1 i a b mem hg1 hat.left hr
-            (by have := e2.2.1; omega) hnl (hci.of_eff e2)
-          rw [hiB_true] at frm1
-          -- store into the parameter slot
-          have hmid : K.low [iLDBM SP_OFFSET, iSTAI (p : Int)] = [.imm 0x1 1, .imm 0x8 (p : Int)] := rfl
-          rw [hmid] at hat ⊢
-          have hld := hat.right.left.get 0 _ rfl
-          have hst := hat.right.left.get 1 _ rfl
-          simp only [Nat.add_zero] at hld hst
-          have sA := Step.ldbm (env := K.env) (cfg (i + (K.low c).length) v b1 mem1) st.io 1 _ hld (ld_one mem1)
-          have hpS : p < K.S := by omega
-          obtain ⟨hsl1, hsl2⟩ := wf.slot_ok (K.S - 1 - p) (by omega)
-          rw [slot_of_out K p hpS] at hsl1 hsl2
-          have hadr : mem1.read 1 + IAm.W (p : Int) = BitVec.ofNat 32 (K.sp + p) := by
-            rw [rep1.sp]; exact ofNat_add_W K.sp p
-          have hsto : IAm.store K.env mem1 (mem1.read 1 + IAm.W (p : Int)) v = some (mem1.write (K.sp + p) v) := by
-            rw [hadr]; exact store_ofNat _ _ _ _ hsl1 hsl2
-          have hne1 : (mem1.read 1 + IAm.W (p : Int)).toNat ≠ 1 := by
-            rw [hadr]; exact ofNat_toNat_ne_one _ (by have := wf.sp_ge; omega) hsl1
-          have sB := Step.stai (env := K.env) (cfg (i + (K.low c).length + 1) v (mem1.read 1) mem1) st.io _ _ hst hsto hne1
-          have frm2 : Frm K (K.S - 1 - p) (K.S - p) mem1 (mem1.write (K.sp + p) v) := by
-            intro ad had
-            rw [Mem.read_write_other]
-            intro e
-            apply had (K.S - 1 - p) (Nat.le_refl _) (by omega)
-            rw [slot_of_out K p hpS]; exact e.symm
-          have rep2 := rep1.frame wf frm2 (by have := e1.2.1; have := e2.2.1; omega) (by omega)
-          have hs1 := eval_pure K.xc _ _ _ _ _ hpe h1
-          obtain ⟨a', b', mem', st3, rep3, hvals, hkeep, frm3⟩ := ih f s1 s ws' hprest h2 (p + 1) saved gs1 cs gs'
-            (i + (K.low c).length + 1 + 1) v (mem1.read 1) (mem1.write (K.sp + p) v) st.io hs1.2.2.2.1 hg2
-            (by simpa [Nat.add_assoc] using hat.right.right) (rep2.same hs1)
-            (by omega) (by have := e1.1; omega) (by have := e1.1; have := e1.2.1; omega) hci
-          refine ⟨a', b', mem', ?_, rep3.same hs1.symm, ?_, ?_, ?_⟩
-          · have : i + ((K.low c).length + ([Dir.imm 1 1, Dir.imm 8 (p : Int)].length + (K.low cs).length))
-                = i + (K.low c).length + 1 + 1 + (K.low cs).length := by
-              simp only [List.length_cons, List.length_nil]; omega
-            simp only [List.length_append]
-            rw [this]
-            exact st1.trans (Steps.step _ _ _ _ _ _ sA (Steps.step _ _ _ _ _ _ sB st3))
-          · intro k hk
-            cases k with
-            | zero =>
-              simp only [Nat.add_zero, List.getElem_cons_zero]
-              rw [hkeep p (by omega), Mem.read_write_same _ _ _ hsl1]
-            | succ k' =>
-              simp only [List.length_cons] at hk
-              have := hvals k' (by omega)
-              simp only [List.getElem_cons_succ]
-              rw [← this]
-              congr 1; omega
-          · intro q hq
-            rw [hkeep q (by omega), Mem.read_write_other _ _ _ _ (by omega)]
-            apply frm1 _ (by omega) (wf.not_inArr _ (by omega))
-            intro k h1' h2' e
-            have hq' : q < K.S := by omega
-            rw [← slot_of_out K q hq'] at e
-            have := slot_inj K (K.S - 1 - q) k (by omega) (by have := e2.2.1; omega) e
-            have := e2.2.1
-            omega
-          · intro ad hsp hna had
-            rw [frm3 ad hsp hna (fun k h1' h2' => had k (by have := e1.1; omega) h2')]
-            rw [Mem.read_write_other _ _ _ _ (fun e => had (K.S - 1 - p)
-              (by have := e1.2.1; have := e2.2.1; omega) (by omega) (by rw [slot_of_out K p hpS]; exact e.symm))]
-            exact frm1 ad hsp hna (fun k h1' h2' => had k h1' (by have := e2.2.1; omega))
+      subst hvs
+      obtain ⟨v, hvdef⟩ : ∃ v, v = wordOf K.abase v0 := ⟨_, rfl⟩
+      have hpe := hp e (by simp)
+      have hprest : ∀ x ∈ rest, pureE x = true := fun x hx => hp x (by simp [hx])
+      simp only [optArgsOf, List.map_cons] at hg
+      rcases loadActuals_cons_inv _ _ _ _ _ _ _ _ hg with ⟨hcc, _⟩ | ⟨_, c, gs1, cs, hg1, hg2, hcode⟩
+      · rw [pure_noCall K.ρ e hpe] at hcc; simp at hcc
+      · subst hcode
+        have e1 := genExpr_eff _ _ _ _ _ _ hg1
+        have e2 := loadActuals_eff _ _ _ _ _ _ _ hg2
+        simp only [List.length_cons] at hb
+        simp only [low_append, List.append_assoc] at hat ⊢
+        have hA := expr_pure_val K wf f e st v0 s1 hpe h1
+        rw [← hvdef] at hA
+        obtain ⟨b1, mem1, st1, rep1, frm1⟩ := hA gs c gs1 i a b mem hg1 hat.left hr
+          (by have := e2.2.1; omega) hnl (hci.of_eff e2)
+        rw [hiB_true] at frm1
+        -- store into the parameter slot
+        have hmid : K.low [iLDBM SP_OFFSET, iSTAI (p : Int)] = [.imm 0x1 1, .imm 0x8 (p : Int)] := rfl
+        rw [hmid] at hat ⊢
+        have hld := hat.right.left.get 0 _ rfl
+        have hst := hat.right.left.get 1 _ rfl
+        simp only [Nat.add_zero] at hld hst
+        have sA := Step.ldbm (env := K.env) (cfg (i + (K.low c).length) v b1 mem1) st.io 1 _ hld (ld_one mem1)
+        have hpS : p < K.S := by omega
+        obtain ⟨hsl1, hsl2⟩ := wf.slot_ok (K.S - 1 - p) (by omega)
+        rw [slot_of_out K p hpS] at hsl1 hsl2
+        have hadr : mem1.read 1 + IAm.W (p : Int) = BitVec.ofNat 32 (K.sp + p) := by
+          rw [rep1.sp]; exact ofNat_add_W K.sp p
+        have hsto : IAm.store K.env mem1 (mem1.read 1 + IAm.W (p : Int)) v = some (mem1.write (K.sp + p) v) := by
+          rw [hadr]; exact store_ofNat _ _ _ _ hsl1 hsl2
+        have hne1 : (mem1.read 1 + IAm.W (p : Int)).toNat ≠ 1 := by
+          rw [hadr]; exact ofNat_toNat_ne_one _ (by have := wf.sp_ge; omega) hsl1
+        have sB := Step.stai (env := K.env) (cfg (i + (K.low c).length + 1) v (mem1.read 1) mem1) st.io _ _ hst hsto hne1
+        have frm2 : Frm K (K.S - 1 - p) (K.S - p) mem1 (mem1.write (K.sp + p) v) := by
+          intro ad had
+          rw [Mem.read_write_other]
+          intro e
+          apply had (K.S - 1 - p) (Nat.le_refl _) (by omega)
+          rw [slot_of_out K p hpS]; exact e.symm
+        have rep2 := rep1.frame wf frm2 (by have := e1.2.1; have := e2.2.1; omega) (by omega)
+        have hs1 := eval_pure K.xc _ _ _ _ _ hpe h1
+        obtain ⟨a', b', mem', st3, rep3, hvals, hokv, hkeep, frm3⟩ := ih f s1 s vs' hprest h2 (p + 1) saved gs1 cs gs'
+          (i + (K.low c).length + 1 + 1) v (mem1.read 1) (mem1.write (K.sp + p) v) st.io hs1.2.2.2.1 hg2
+          (by simpa [Nat.add_assoc] using hat.right.right) (rep2.same hs1)
+          (by omega) (by have := e1.1; omega) (by have := e1.1; have := e1.2.1; omega) hci
+        refine ⟨a', b', mem', ?_, rep3.same hs1.symm, ?_, ?_, ?_, ?_⟩
+        · have : i + ((K.low c).length + ([Dir.imm 1 1, Dir.imm 8 (p : Int)].length + (K.low cs).length))
+              = i + (K.low c).length + 1 + 1 + (K.low cs).length := by
+            simp only [List.length_cons, List.length_nil]; omega
+          simp only [List.length_append]
+          rw [this]
+          exact st1.trans (Steps.step _ _ _ _ _ _ sA (Steps.step _ _ _ _ _ _ sB st3))
+        · intro k hk
+          cases k with
+          | zero =>
+            simp only [Nat.add_zero, List.getElem_cons_zero]
+            rw [hkeep p (by omega), Mem.read_write_same _ _ _ hsl1, hvdef]
+          | succ k' =>
+            simp only [List.length_cons] at hk
+            have := hvals k' (by omega)
+            simp only [List.getElem_cons_succ]
+            rw [← this]
+            congr 1; omega
+        · intro x hx
+          rcases List.mem_cons.mp hx with rfl | hx
+          · exact eval_pure_okV K f e st _ s1 mem hpe hr h1
+          · exact hokv x hx
+        · intro q hq
+          rw [hkeep q (by omega), Mem.read_write_other _ _ _ _ (by omega)]
+          apply frm1 _ (by omega) (wf.not_inArr _ (by omega))
+          intro k h1' h2' e
+          have hq' : q < K.S := by omega
+          rw [← slot_of_out K q hq'] at e
+          have := slot_inj K (K.S - 1 - q) k (by omega) (by have := e2.2.1; omega) e
+          have := e2.2.1
+          omega
+        · intro ad hsp hna had
+          rw [frm3 ad hsp hna (fun k h1' h2' => had k (by have := e1.1; omega) h2')]
+          rw [Mem.read_write_other _ _ _ _ (fun e => had (K.S - 1 - p)
+            (by have := e1.2.1; have := e2.2.1; omega) (by omega) (by rw [slot_of_out K p hpS]; exact e.symm))]
+          exact frm1 ad hsp hna (fun k h1' h2' => had k h1' (by have := e2.2.1; omega))
+
+theorem wordOf_int_getElem (abase : Nat → Nat) (ws : List Word) (k : Nat) (hk : k < (ws.map Val.int).length) :
+    wordOf abase (ws.map Val.int)[k] = ws[k]'(by simpa using hk) := by
+  simp [wordOf]
+
+/-- The same for integer actuals. -/
+theorem exec_loadActuals (K : PCtx) (wf : K.WF) (es : List X.Expr) (fuel : Nat) (st s : X.St) (ws : List Word)
+    (hp : ∀ e ∈ es, pureE e = true) (hev : X.evalArgs fuel K.xc es st = .ok (ws.map Val.int) s)
+    (p saved : Nat) (gs : GS) (code : Code) (gs' : GS) (i : Nat) (a b : Word) (mem : Mem) (io : Isa.IOSt) (hio : st.io = io)
+    (hg : loadActuals K.ctx (optArgsOf K.ρ es) p saved gs = .ok (code, gs')) (hat : At K.env.ds i (K.low code)) (hr : Rep K st mem)
+    (hb : gs'.size + (p + es.length) ≤ K.S) (hnl : K.nlocals ≤ gs.offset) (hos : gs.offset ≤ gs.size) (hci : ConstsIn K gs') :
+    ∃ a' b' mem', Steps K.env (cfg i a b mem) io (cfg (i + (K.low code).length) a' b' mem') io ∧ Rep K st mem' ∧
+      (∀ k (hk : k < ws.length), mem'.read (K.sp + p + k) = ws[k]) ∧
+      (∀ q, q < p → mem'.read (K.sp + q) = mem.read (K.sp + q)) ∧
+      FrmC K gs.offset K.S mem mem' := by
+  obtain ⟨a', b', mem', h1, h2, h3, _, h5, h6⟩ := exec_loadActualsV K wf es fuel st s _ hp hev p saved gs code gs' i a b mem io hio
+    hg hat hr hb hnl hos hci
+  refine ⟨a', b', mem', h1, h2, fun k hk => ?_, h5, h6⟩
+  have := h3 k (by simpa using hk)
+  rw [this]
+  exact wordOf_int_getElem K.abase ws k (by simpa using hk)
 
 /-! ### System-call statements -/
 
